@@ -36,7 +36,7 @@ class C11(EngineProp):
         for _ in range(240 if tier == 'quick' else 3000):
             out.append({'mode': 'tcp', 'role': rng.choice(['client', 'server']), 'profile': 'tcp-cut', 'cut': rng.choice(['eof', 'reset', 'timeout', 'close']),
                         # the application's close notification asks once more (a last request / a retry): the endpoint is going away, it must be failed
-                        'ask_in_on_close': rng.random() < 0.4,
+                        'ask_in_on_close': rng.random() < 0.4, 'ask_in_on_error': rng.random() < 0.3,
                         # ... or fails (a flush of application state that hits a full disk, say)
                         'on_close_raises': rng.choice([None, None, None, 'OSError', 'RuntimeError', 'ValueError']),
                         'partial': rng.randint(0, 40), 'rr': rng.randint(0, 2), 'streams': rng.randint(0, 2), 'incoming': rng.randint(0, 2),
@@ -61,7 +61,7 @@ class C11(EngineProp):
         from rsocket.payload import Payload
         from harness import engine
         from harness.link import Writer
-        log = {'on_close': 0, 'handler_futures': [], 'wire': bytearray(), 'pulls': [], 'pulls_at_close': None, 'asked': []}
+        log = {'on_close': 0, 'handler_futures': [], 'wire': bytearray(), 'pulls': [], 'pulls_at_close': None, 'asked': [], 'asked_in_final_sweep': []}
 
         class L:
             stream = [log['wire'], bytearray()]
@@ -106,7 +106,13 @@ class C11(EngineProp):
             def on_subscribe(self, s): self.events.append('subscribe')
             def on_next(self, v, is_complete=False): self.events.append('next')
             def on_complete(self): self.events.append('complete')
-            def on_error(self, e): self.events.append('error:' + type(e).__name__)
+            def on_error(self, e):
+                self.events.append('error:' + type(e).__name__)
+                if case.get('ask_in_on_error'):
+                    # the application reacts to the failure with a fallback request on the same endpoint, right inside on_error
+                    log['asked'].append(ep.request_response(Payload(b'fallback')))
+                    if log.get('final_close'):
+                        log['asked_in_final_sweep'].append(len(log['asked']) - 1)
         futs = [ep.request_response(Payload(b'rr%d' % i)) for i in range(case['rr'])]
         subs = []
         for i in range(case['streams']):
@@ -165,6 +171,7 @@ class C11(EngineProp):
                'on_close': log['on_close'], 'sender_alive': ep._sender_task is not None and not ep._sender_task.done(),
                'receiver_alive': ep._receiver_task is not None and not ep._receiver_task.done(), 'written_after_end': len(log['wire']) - n_wire,
                'table': table_at_loss, 'incoming': len(log['handler_futures'])}
+        log['final_close'] = True
         try:
             await ep.close()
         except Exception:
@@ -175,6 +182,7 @@ class C11(EngineProp):
         res['table_after_close'] = sorted(ep._stream_control._streams.keys())
         res['asked_after_explicit_close'] = log.get('asked_after_close')
         res['close_raised'] = log.get('close_raised')
+        res['asked_in_final_sweep'] = log['asked_in_final_sweep']
         res['transport_closed'] = bool(getattr(t._writer, 'closed', None)) if hasattr(t, '_writer') else None
         res['asked_in_on_close'] = ['pending' if not f.done() else ('cancelled' if f.cancelled() else ('error:' + type(f.exception()).__name__ if f.exception() else 'result')) for f in log['asked']]
         res['pulled_after_close'] = (len(log['pulls']) - log['pulls_at_close']) if log['pulls_at_close'] is not None else 0
@@ -227,7 +235,9 @@ class C11(EngineProp):
         if obs['written_after_end']:
             fails.append({'signature': 'sends-after-close', 'what': 'TransportTCP, %s: %d bytes written after the connection ended' % (how, obs['written_after_end'])})
         # (a request the application issues inside on_close is registered until close(): the table is then read after close())
-        left = obs.get('table_after_close', []) if case.get('ask_in_on_close') else obs['table']
+        left = obs.get('table_after_close', []) if (case.get('ask_in_on_close') or case.get('ask_in_on_error')) else obs['table']
+        if obs.get('asked_in_final_sweep'):
+            left = []          # (the streams of F22's requests: reported above)
         if left:
             fails.append({'signature': 'streams-left-registered', 'what': 'TransportTCP, %s: streams %s still registered' % (how, left)})
         for i, f in enumerate(obs.get('late_futures', [])):
@@ -235,9 +245,15 @@ class C11(EngineProp):
                 fails.append({'signature': 'request-pending-at-close-not-failed:' + case['role'], 'what': 'TransportTCP, %s: request-response %d issued after the loss and before close() is %s after close()' % (how, i, f)})
         if obs.get('close_raised'):
             fails.append({'signature': 'close-raises-the-applications-on_close-exception', 'what': 'TransportTCP, %s: close() raised %s, the exception of the application\'s on_close handler: the rest of the shutdown was skipped' % (how, obs['close_raised'])})
+        sweep = set(obs.get('asked_in_final_sweep') or [])
         for i, f in enumerate(obs.get('asked_after_explicit_close') or obs.get('asked_in_on_close', [])):
+            if not f.startswith('error') and i in sweep and not obs.get('asked_after_explicit_close'):
+                # known finding F22: issued from inside on_error while the last stop_all_streams() of a close() on an already lost
+                # connection is running: it is registered behind the sweep's snapshot and nothing ever fails it
+                fails.append({'signature': 'request-issued-inside-on_error-during-the-final-sweep-not-failed', 'what': 'TransportTCP, %s: a fallback request-response issued by a subscriber inside on_error, while close() was failing the streams of the already lost connection, is %s after close() returned' % (how, f)})
+                continue
             if not f.startswith('error'):
-                fails.append({'signature': 'request-issued-in-on_close-not-failed:' + case['role'], 'what': 'TransportTCP, %s: a request-response issued by the application inside on_close is %s after close() returned' % (how, f)})
+                fails.append({'signature': 'request-issued-in-on_close-not-failed:' + case['role'], 'what': 'TransportTCP, %s: a request-response issued by the application inside on_close / on_error is %s after close() returned' % (how, f)})
         for i, ev in enumerate(obs.get('late_subs', [])):
             if not ev or ev[-1].split(':')[0] != 'error':
                 fails.append({'signature': 'subscriber-pending-at-close-not-failed:' + case['role'], 'what': 'TransportTCP, %s: the subscriber of request-stream %d issued after the loss and before close() saw %s' % (how, i, ev)})
